@@ -376,6 +376,7 @@ func c15(c *wk.Ctx) {
 		}
 		idx++
 	}
+	c15userTypes(c, m, &idx)
 	// counts whose product with an element or header size wraps around 2^32 (or 2^31) to something small: a bound
 	// computed in 32-bit arithmetic lets them through
 	for _, cnt := range c15wrapCounts {
